@@ -507,6 +507,7 @@ class Interp:
         if m is None:
             m = models.lookup_model(cls)
         if m is not None:
+            self.st.used_models.add(_qn(cls))
             return m(self, args, kwargs)
         if issubclass(cls, enum.Enum) or not _is_repo_class(cls):
             if issubclass(cls, BaseException) and not _is_repo_class(cls):
